@@ -1,4 +1,5 @@
 import Restic.Proofs.C53_lines
+import Restic.Gen.Source
 /-!
 # C53 — diff reports exactly the paths that differ between two snapshots
 
@@ -483,6 +484,14 @@ theorem not_exhausted (md : Bool) : ∀ (fuel : Nat) (pre : List Name) (l1 l2 : 
             · split
               · exact printDirL_no_exh _ _ _
               · simp
+
+/-- T1 (regenerated from cmd/restic/cmd_diff.go on every run): `diffTree` iterates with
+    `DualTreeIterator`, skips identical subtrees with `collectDir`, and calls `printDir` in four
+    places — removed directory, added directory and the two directory type changes (the F5 fix). -/
+theorem diffTree_structure :
+    (Restic.Gen.diffTree_calls.filter (· == "c.printDir")).length = 4 ∧
+    "data.DualTreeIterator" ∈ Restic.Gen.diffTree_calls ∧ "c.collectDir" ∈ Restic.Gen.diffTree_calls ∧
+    "c.diffTree" ∈ Restic.Gen.diffTree_calls := by decide
 
 /-! ### Non-vacuity and the defect found (F5) -/
 
